@@ -12,7 +12,7 @@ EXPL = ("Both arms of calculate_activity_coefficients are normalised to closed f
         "the temperature and the mole fraction as atoms. Decided as exact identities on those forms: the Gibbs-Duhem relation "
         "(syntactic derivative with respect to the mole fraction; all logarithms occur with constant coefficients, so the "
         "derivative is a rational function), the pure-component limits (substitution x_j = 0), the Raoult limit of NRTL "
-        "(substitution of vanishing interaction parameters), the relabelling symmetry gamma_2 = sigma(gamma_1), the form "
+        "(substitution of vanishing interaction parameters), the form "
         "p_i = x_i*gamma_i*Psat_i of the partial pressures and their independence of the input basis (substitution of the "
         "mole fraction by the converted mass fraction).")
 
@@ -93,24 +93,6 @@ def run(ck):
             except poly.Unmodelled as e:
                 okz, fz = False, "the limit does not exist: %s" % e
             sck.ob("A3", f.qualname, "gamma_%s -> 1 as component %s becomes pure [%s]" % (which, which, model), where, okz, found=fz)
-        # relabelling symmetry
-        sg = Sigma(repo, fixed_paths=("mixture.nrtl_params.alpha12",) if (model == "NRTL" and a21 == "none") else ())
-        a1, a2 = addends(g1), addends(g2)
-        if len(a1) == len(a2) and len(a1) > 1:
-            # term by term: the i-th addend of ln(gamma_2) must be the relabelled i-th addend of ln(gamma_1)
-            for i, (u, v) in enumerate(zip(a1, a2)):
-                su = sg(u)
-                okk = su == v
-                sig = "" if okk else " residual-terms=%d" % (su - v).num.nterms()
-                sck.ob("A4", f.qualname, "addend %d of ln(gamma_2) is the relabelled addend %d of ln(gamma_1) [%s]%s" % (i + 1, i + 1, model, sig),
-                       where, okk, "ln(gamma_2) must equal ln(gamma_1) with the roles of the components exchanged",
-                       expected=lambda: poly.rat_str(su, 8), found=lambda: poly.rat_str(v, 8))
-        else:
-            s1 = sg(l1)
-            okk = s1 == l2
-            sig = "" if okk else " residual-terms=%d" % (s1 - l2).num.nterms()
-            sck.ob("A4", f.qualname, "gamma_2 is the relabelled gamma_1 [%s]%s" % (model, sig), where, okk,
-                   "ln(gamma_2) must equal ln(gamma_1) with the roles of the components exchanged")
         if model == "NRTL":
             zero = {poly.T.sym("mixture.nrtl_params.%s" % n).id: Rat.const(0) for n in ("a12", "a21", "g12", "g21")}
             r1, r2 = subst(l1, zero), subst(l2, zero)
